@@ -16,6 +16,7 @@ import YalafiVerif.Proofs.Utils
 import YalafiVerif.Proofs.PlainVerb
 import YalafiVerif.Generated.Init
 import YalafiVerif.Properties.PlainMathOpenStmt
+import YalafiVerif.Properties.PlainFaultStmt
 namespace Yalafi
 
 theorem C08_latexError_mark (T : Tables) (err : Str) (pos n : Nat) :
